@@ -24,6 +24,7 @@ import (
 	"verifharness/props/c15"
 	"verifharness/props/c16"
 	"verifharness/props/c17"
+	"verifharness/props/c19"
 )
 
 var registry = map[string]func() fw.Prop{
@@ -31,6 +32,7 @@ var registry = map[string]func() fw.Prop{
 	"C09": func() fw.Prop { return c09.Prop{} },
 	"C05": func() fw.Prop { return c05.Prop{} },
 	"C11": func() fw.Prop { return c11.Prop{} },
+	"C19": func() fw.Prop { return c19.Prop{} },
 	"C10": func() fw.Prop { return c02.C10{} },
 	"C01": func() fw.Prop { return c02.C01{} },
 	"C18": func() fw.Prop { return c02.C18{} },
